@@ -108,6 +108,9 @@ class ConcreteCtx:
     def observe(self, label, value):
         self.observations.append((label, value))
 
+    def record(self, payload):
+        self.observations.append(("record", payload))
+
     # helpers usable by harnesses for terms
     def ite(self, c, a, b):
         return a if c else b
